@@ -178,6 +178,8 @@ def m_repr(I, args, kw):
         if m is not None and isinstance(m, types.FunctionType):
             return I.call_value(_pyvc().BoundMethod(v, m), [], {})
         return Opaque('str', 'repr(obj)', taint_of(v), {'nonempty'})
+    if isinstance(v, ExcVal):
+        return Opaque('str', 'repr(exception)', taint_of(v) | frozenset(v.fields.get('__repr_taint__', ())), {'nonempty'})
     if is_symbolic(v) or _has_sym(v):
         return Opaque('str', 'repr()', taint_of(v), {'nonempty'})
     return repr(v)
@@ -899,21 +901,21 @@ def native_method_call(I, name, recv, args, kw):
         if name == 'get':
             k = I.resolve_opt(args[0])
             dflt = args[1] if len(args) > 1 else None
-            if is_symbolic(k) and not isinstance(k, Obj):
-                for kk in recv:
-                    if I.cond(equals(I, kk, k)):
-                        return recv[kk]
-                return dflt
+            if (is_symbolic(k) and not isinstance(k, Obj)) or M.dict_has_symkeys(recv):
+                kk = M.dict_find(I, recv, k)
+                return recv[kk] if kk is not None else dflt
             try:
                 return recv.get(k, dflt)
             except TypeError as e:
                 I.raise_py(TypeError, *e.args)
         if name == 'keys':
-            return list(recv.keys())
+            from .sym import unkey
+            return [unkey(k) for k in recv.keys()]
         if name == 'values':
             return list(recv.values())
         if name == 'items':
-            return list(recv.items())
+            from .sym import unkey
+            return [(unkey(k), v) for k, v in recv.items()]
         if name == 'update':
             from .sym import SDict as _SD
             if any(isinstance(I.resolve_opt(a), _SD) for a in args):
